@@ -61,7 +61,7 @@ def sig_c03_repeated_structured(oracle, inp, ver):
     # the model of the documented behaviour itself is order dependent on this input; Go re-randomises
     # the iteration order at every visit of a map, so within one evaluation a sub-pattern may be
     # visited in several orders and the outcome may be a mixture the model's per-map orders do not list
-    if oracle not in ("det", "probe:concurrent", "corr") or ver.get("modelDet") is not False:
+    if oracle not in ("det", "probe:concurrent", "probe:pure", "corr") or ver.get("modelDet") is not False:
         return False
     if not _has_repeated_structured_var(inp):
         return False
@@ -99,13 +99,13 @@ def _has_repeated_optional_var(inp):
 
 
 def sig_c03_repeated_optional(oracle, inp, ver):
-    if oracle not in ("det", "probe:concurrent", "corr") or ver.get("modelDet") is not False:
+    if oracle not in ("det", "probe:concurrent", "probe:pure", "corr") or ver.get("modelDet") is not False:
         return False
     return _has_repeated_optional_var(inp)
 
 
 def sig_c03_invalid_vs_nomatch(oracle, inp, ver):
-    if oracle not in ("det", "probe:concurrent", "corr") or ver.get("modelDet") is not False:
+    if oracle not in ("det", "probe:concurrent", "probe:pure", "corr") or ver.get("modelDet") is not False:
         return False
     if not _invalid_pattern(inp.get("p")):
         return False
@@ -246,7 +246,7 @@ PROPS = {
     "C03": {
         "modules": ["Sheens.Props.C03"],
         "theorems": [],
-        "facts": ["match_copies_first", "copyBindingss_copies", "matcher_branches_copy", "matcher_writes_only_locals_and_bindings"],
+        "facts": ["match_copies_first", "copyBindingss_copies", "matcher_branches_copy", "matcher_writes_only_locals_and_bindings", "match_no_hidden_state"],
         "runs": {
             "quick": [("match", ["-profile", "c03", "-n", "8000", "-reps", "32"])],
             "thorough": [("match", ["-profile", "c03", "-n", "40000", "-reps", "64"]), ("match", ["-profile", "c03", "-n", "3000", "-reps", "8"], {"race": True})],
@@ -285,7 +285,7 @@ PROPS = {
     "C06": {
         "modules": ["Sheens.Props.C06"],
         "theorems": [],
-        "facts": ["engine_writes_only_locals", "engine_mutators_on_fresh_maps", "step_returns_copies", "match_copies_first"],
+        "facts": ["engine_writes_only_locals", "engine_mutators_on_fresh_maps", "step_returns_copies", "match_copies_first", "core_no_hidden_state", "match_no_hidden_state"],
         "runs": {
             "quick": [("walk", ["-profile", "failing", "-n", "7000"]), ("step", ["-profile", "failing", "-n", "6000"])],
             "thorough": [("walk", ["-profile", "failing", "-n", "40000"]), ("step", ["-profile", "failing", "-n", "40000"]),
@@ -466,7 +466,7 @@ PROPS = {
     "C10": {
         "modules": ["Sheens.Props.C10"],
         "theorems": [],
-        "facts": ["runtime_is_per_exec", "bindings_deep_copied"],
+        "facts": ["runtime_is_per_exec", "bindings_deep_copied", "es_no_hidden_state"],
         "runs": {
             "quick": [("isolation", ["-n", "600"]), ("walk", ["-profile", "failing", "-n", "2000"])],
             "thorough": [("isolation", ["-n", "3000"]), ("walk", ["-profile", "failing", "-n", "5000"]), ("isolation", ["-n", "400"], {"race": True})],
@@ -500,7 +500,7 @@ PROPS = {
     "C12": {
         "modules": ["Sheens.Props.C12"],
         "theorems": [],
-        "facts": ["specter_atomic", "engine_writes_only_locals", "matcher_writes_only_locals_and_bindings"],
+        "facts": ["specter_atomic", "engine_writes_only_locals", "matcher_writes_only_locals_and_bindings", "core_no_hidden_state", "match_no_hidden_state"],
         "runs": {
             "quick": [("concurrent", ["-n", "1500"])],
             "thorough": [("concurrent", ["-n", "4000"]), ("concurrent", ["-n", "600"], {"race": True})],
